@@ -355,6 +355,104 @@ def worker(case, led):
                       {"method": method, "form": "MpDm"}, rep)
         except Exception as e:
             led.check(False, f"post:MpDm.evolve[{method}]:total", f"Mps._evolve_{method}", f"raised {type(e).__name__}: {e}", key, {"method": method, "form": "MpDm"}, rep)
+    elif kind == "vmf_rhs":
+        # contract of the right-hand side the chain VMF schemes integrate (the closure func_vmf inside _evolve_tdvp_mu_vmf, captured through the name solve_ivp of
+        # renormalizer.mps.mps): mapped to the dense vector, the parameter velocity is the ORTHOGONAL PROJECTION of -i H psi (resp. -H psi in imaginary time) onto
+        # the tangent space of the matrix-product manifold at psi - for truncated manifolds (where the non-centre velocities do not vanish) and any norm.
+        _, name, n, method, seed, tier = case
+        import renormalizer.mps.mps as mps_mod
+        from renormalizer.mps.svd_qn import get_qn_mask
+        rng = np.random.default_rng([seed, n, 979, sum(map(ord, name))])
+        model, terms, sectors = Dn.hamiltonian(name, n, rng)
+        from renormalizer.mps import Mpo
+        H = Mpo(model, terms)
+        Hd = Dn.dense_h(model, terms)
+
+        class Captured(Exception):
+            pass
+        for q in (sectors[1:3] if len(sectors) > 2 else sectors[:1]):
+            for M in (1, 2, 3):
+                for imag in (False, True):
+                    for scale_ in (1.0, 0.6):
+                        a = U.make_state(model, q, M, rng, complex_=True)
+                        if a is None:
+                            continue
+                        a = a.canonicalise().canonicalise()
+                        a = a.scale(scale_)
+                        Dn.set_evolve(a, method, M=64)
+                        key = (name, n, method, str(q), M, imag, scale_)
+                        rep = {"model": name, "nsites": n, "method": method, "sector": q, "M": M, "imaginary_time": imag, "scale": scale_, "seed": seed,
+                               "bond_dims": [int(b) for b in a.bond_dims]}
+                        box = {}
+
+                        def fake(fun, t_span, y0, *args, **kw):
+                            box["fun"], box["y0"] = fun, np.array(y0)
+                            raise Captured()
+                        orig = mps_mod.solve_ivp
+                        mps_mod.solve_ivp = fake
+                        try:
+                            a.evolve(H, -0.05j if imag else 0.05)
+                        except Captured:
+                            pass
+                        except Exception as e:
+                            led.ok("skipped:func_vmf:raised", f"Mps._evolve_tdvp_mu_vmf[{method}]", key + (type(e).__name__,), nontrivial=False)
+                            continue
+                        finally:
+                            mps_mod.solve_ivp = orig
+                        if "fun" not in box:
+                            continue
+                        y0 = box["y0"]
+                        try:
+                            ydot = np.array(box["fun"](0.0, y0.copy()))
+                        except Exception as e:
+                            led.check(False, f"post:Mps._evolve_tdvp_mu_vmf[{method}]:rhs_total", f"Mps._evolve_tdvp_mu_vmf", f"func_vmf raised {type(e).__name__}: {e}", key, {"method": method}, rep)
+                            continue
+                        # the layout of y is documented in the function: per site, the symmetry-allowed entries (mask with the qn centre on that site) in C order
+                        st = a.copy().ensure_left_canonical().to_complex() if not imag else a.copy().ensure_left_canonical()
+                        st = st.to_complex()
+                        masks, pos = [], [0]
+                        for i in range(n):
+                            st.move_qnidx(i)
+                            _, _, qnmat = st._get_big_qn([i])
+                            mk = get_qn_mask(qnmat, st.qntot)
+                            masks.append(mk)
+                            pos.append(pos[-1] + int(mk.sum()))
+                        if pos[-1] != len(y0):
+                            led.check(False, f"post:Mps._evolve_tdvp_mu_vmf[{method}]:parameter_layout", "Mps._evolve_tdvp_mu_vmf", f"{pos[-1]} allowed entries but {len(y0)} parameters", key, {"method": method}, rep)
+                            continue
+                        tens = []
+                        for i in range(n):
+                            t_ = np.zeros(masks[i].shape, dtype=complex)
+                            t_[masks[i]] = y0[pos[i]:pos[i + 1]]
+                            tens.append(t_)
+                        for i in range(n):
+                            st[i] = tens[i]
+                        v = S.dense(st) / st.coeff if hasattr(st, "coeff") and st.coeff not in (0,) else S.dense(st)
+                        cols = []
+                        for i in range(n):
+                            for idx in zip(*np.nonzero(masks[i])):
+                                e = np.zeros(masks[i].shape, dtype=complex)
+                                e[idx] = 1.0
+                                st[i] = e
+                                cols.append(S.dense(st) / (st.coeff if hasattr(st, "coeff") else 1))
+                            st[i] = tens[i]
+                        J = np.array(cols).T
+                        rhs = (-1.0 if imag else -1j) * (Hd @ v)
+                        # bond weights: J^H J has the blocks (overlap matrix) x 1; weights near reg_epsilon are outside the clause, exact zeros (over-complete bonds) get
+                        # the looser tolerance (the inverse is 1/reg_epsilon there and amplifies rounding)
+                        sv = np.linalg.svd(J, compute_uv=False)
+                        nz = sv[sv > 1e-9 * sv.max()]
+                        eps_ = a.evolve_config.reg_epsilon
+                        if nz.min() ** 2 < 1e4 * eps_ * max(1.0, scale_ ** 2):
+                            led.ok("skipped:func_vmf:bond_weight_near_regularisation", "Mps._evolve_tdvp_mu_vmf", key + ("pre",), nontrivial=False)
+                            continue
+                        want = J @ np.linalg.lstsq(J, rhs, rcond=None)[0]
+                        got = J @ ydot
+                        err = np.linalg.norm(got - want)
+                        tol_rel = 1e-6 + 1e-14 / eps_
+                        led.check(err <= tol_rel * max(1e-12, np.linalg.norm(rhs)), f"post:Mps._evolve_tdvp_mu_vmf[{method}]:velocity_is_tangent_projection", "Mps._evolve_tdvp_mu_vmf",
+                                  f"|J ydot - P_T(-iH psi)| = {err:.3e} (|H psi| = {np.linalg.norm(rhs):.3e})", key, {"method": method, "imaginary_time": imag}, rep,
+                                  nontrivial=len(y0) > len(v) // 4)
     elif kind == "timedep":
         _, name, n, method, seed, tier = case
         from renormalizer.mps import Mpo
@@ -430,12 +528,15 @@ def check(run):
                 cases.append(("mpdm", name, n, method, s, run.tier))
             for method in ("prop_and_compress_tdrk4", "prop_and_compress_tdrk"):
                 cases.append(("timedep", name, n, method, s, run.tier))
+            for method in ("tdvp_vmf", "tdvp_mu_vmf"):
+                cases.append(("vmf_rhs", name, n, method, s, run.tier))
     run_cases(run, worker, cases)
     from props import C09_sym
     C09_sym.prove(run)
     run.rule = ("models {spin+qn, electron-phonon, spin} with dense reference (dim <= 72/200) x 8 schemes x local solvers {krylov, RK45} x |H|dt in {0.1, 0.3, 1.0}; "
                 "ten RK tableaux rotated over seeds; split U(t) vs U(t/2)U(t/2); adaptive vs exact; TDVP-PS at bond limits 1,2,3 over 3 steps (norm, energy, limit); "
-                "random histories of 5 scheme switches; density-operator form; time-dependent H(t) for the RK schemes; distinct = (model, size, scheme, solver, |H|dt, clause)")
+                "random histories of 5 scheme switches; density-operator form; time-dependent H(t) for the RK schemes; the VMF right-hand side (func_vmf, captured through solve_ivp) vs the "
+                "orthogonal tangent-space projection of -iH psi at bond limits 1,2,3, real / imaginary time, norm 1 and 0.6; distinct = (model, size, scheme, solver, |H|dt, clause)")
     run.sample({"model": "holstein", "nsites": 4, "method": "tdvp_ps", "ivp_solver": "RK45", "|H|dt": 1.0,
                 "contract": "|psi - expm(-iHt) psi0| <= 40 n (ivp_rtol |psi| + ivp_atol)  (exactness of projector splitting at full bond dimension)"})
     run.explanation = ("bounded only: every bound is derived from a theorem about the scheme (Taylor remainder, stage polynomial with the coefficients certified in C19, "
